@@ -225,9 +225,11 @@ Lemma icallf_extends n : Q n -> forall c vs g o g', icallf cm funs clos n c vs g
 Proof.
   intros IH c vs g o g' H. unfold icallf in H. destruct c as [f|id oid cap].
   - destruct (find_fun funs f) as [d|]; [|inversion H; subst; apply extends_refl].
+    destruct (enough_args (fparams d) vs); [|inversion H; subst; apply extends_refl].
     destruct (iexec cm funs clos n f (fbody d) (bind_params (fparams d) vs [], []) g) as [|c fr1 g1] eqn:E; [discriminate|].
     apply IH in E. inversion H; subst. exact E.
   - destruct (nth_error clos id) as [cd|]; [|inversion H; subst; apply extends_refl].
+    destruct (enough_args (cparams cd) vs); [|inversion H; subst; apply extends_refl].
     destruct (iexec cm funs clos n (clo_name oid) (cbody cd) (bind_captured cap (bind_params (cparams cd) vs []), []) g) as [|c fr1 g1] eqn:E; [discriminate|].
     apply IH in E. inversion H; subst. exact E.
 Qed.
